@@ -768,7 +768,7 @@ func (e *Engine) load(fr *Frame, st *State, pv SV, t types.Type, what string) SV
 	p, ok := pv.(*PtrSV)
 	if !ok {
 		if s, ok2 := pv.(*Sc); ok2 {
-			p = &PtrSV{Kind: pkHeap, Ref: s.T, Root: t}
+			p = e.heapPtr(s.T, t)
 		} else {
 			panic(engErr(fmt.Sprintf("load through %T", pv)))
 		}
@@ -786,6 +786,9 @@ func (e *Engine) load(fr *Frame, st *State, pv SV, t types.Type, what string) SV
 		}
 		return e.loadRaw(st, p, t)
 	case pkElem:
+		if p.MaybeNil && fr != nil {
+			e.nilCheck(fr, st, p.Ref, what)
+		}
 		return e.loadRaw(st, p, t)
 	case pkGlobal:
 		v := e.loadRaw(st, &PtrSV{Kind: pkHeap, Ref: e.globalRef(p.Glob), Root: p.Root, Path: p.Path}, t)
@@ -807,6 +810,17 @@ func (e *Engine) globalRef(g *ssa.Global) string {
 }
 
 func (e *Engine) loadRaw(st *State, p *PtrSV, t types.Type) SV {
+	if p.Kind == pkHeap && p.Either {
+		c, pe, ph := e.splitEither(p)
+		ve := e.flatten(t, e.loadRaw(st, pe, t))
+		vh := e.flatten(t, e.loadRaw(st, ph, t))
+		lv := e.leaves(t)
+		out := make([]string, len(lv))
+		for i := range lv {
+			out[i] = e.vc.define("ld", lv[i].Sort, fmt.Sprintf("(ite %s %s %s)", c, ve[i], vh[i]))
+		}
+		return e.unflat(t, out)
+	}
 	tt, prefix := e.typeAtPath(p.Root, p.Path)
 	_ = tt
 	lv := e.leaves(t)
@@ -879,7 +893,7 @@ func (e *Engine) store(fr *Frame, st *State, pv SV, t types.Type, v SV, what str
 	p, ok := pv.(*PtrSV)
 	if !ok {
 		if s, ok2 := pv.(*Sc); ok2 {
-			p = &PtrSV{Kind: pkHeap, Ref: s.T, Root: t}
+			p = e.heapPtr(s.T, t)
 		} else {
 			panic(engErr(fmt.Sprintf("store through %T", pv)))
 		}
@@ -894,6 +908,9 @@ func (e *Engine) store(fr *Frame, st *State, pv SV, t types.Type, v SV, what str
 		e.frameCheck(fr, st, p, t)
 		e.storeRaw(st, p, t, v)
 	case pkElem:
+		if p.MaybeNil {
+			e.nilCheck(fr, st, p.Ref, what)
+		}
 		e.frameCheck(fr, st, p, t)
 		e.storeRaw(st, p, t, v)
 	case pkGlobal:
@@ -904,6 +921,33 @@ func (e *Engine) store(fr *Frame, st *State, pv SV, t types.Type, v SV, what str
 }
 
 func (e *Engine) storeRaw(st *State, p *PtrSV, t types.Type, v SV) {
+	if p.Kind == pkHeap && p.Either {
+		c, pe, ph := e.splitEither(p)
+		se, sh := st.clone(), st.clone()
+		e.storeRaw(se, pe, t, v)
+		e.storeRaw(sh, ph, t, v)
+		var names []string
+		seen := map[string]bool{}
+		for n := range se.heap {
+			if se.heap[n] != st.heap[n] && !seen[n] {
+				seen[n] = true
+				names = append(names, n)
+			}
+		}
+		for n := range sh.heap {
+			if sh.heap[n] != st.heap[n] && !seen[n] {
+				seen[n] = true
+				names = append(names, n)
+			}
+		}
+		sortStrings(names)
+		for _, n := range names {
+			srt := e.vc.heapSort[n]
+			a, b := e.heapGet(se, n, srt), e.heapGet(sh, n, srt)
+			e.heapSet(st, n, srt, fmt.Sprintf("(ite %s %s %s)", c, a, b))
+		}
+		return
+	}
 	_, prefix := e.typeAtPath(p.Root, p.Path)
 	lv := e.leaves(t)
 	vals := e.flatten(t, v)
@@ -1005,7 +1049,9 @@ func (e *Engine) fieldAddr(fr *Frame, st *State, v *ssa.FieldAddr) SV {
 		return &np
 	case *Sc:
 		e.nilCheck(fr, st, p.T, "field address "+v.String())
-		return &PtrSV{Kind: pkHeap, Ref: p.T, Root: st0, Path: []pathEl{{field: v.Field}}}
+		hp := e.heapPtr(p.T, st0)
+		hp.Path = []pathEl{{field: v.Field}}
+		return hp
 	}
 	panic(engErr(fmt.Sprintf("fieldAddr on %T", base)))
 }
